@@ -89,7 +89,7 @@ def read_bytes(
         data = file_.read().strip() if file_ else sys.stdin.read().strip()
         if len(data) % 8:
             data = "0" * (8 - len(data) % 8) + data
-        data = int(data, 2).to_bytes(len(data) // 8, "big")
+        data = int(data, 2).to_bytes(len(data) // 8, "big") if data else b""
     else:
         raise ValueError(f"unrecognized input format: {input_format}")
     return data
